@@ -427,6 +427,16 @@ func Read(r io.Reader) (*Font, error) {
 		info.IsBold = true
 	}
 
+	// Write derives the sub-family name from the weight class, and the test
+	// above derives IsBold from the sub-family name.  Apply the same test to
+	// the name Write would generate, so that reading a written font gives
+	// the same flags again.
+	if sub := info.Subfamily(); strings.Contains(sub, "Bold") &&
+		!strings.Contains(sub, "Semi Bold") &&
+		!strings.Contains(sub, "Extra Bold") {
+		info.IsBold = true
+	}
+
 	if !(info.IsItalic || info.IsBold) {
 		if os2Info != nil {
 			info.IsRegular = os2Info.IsRegular
